@@ -5,6 +5,7 @@ CONSTANTS
   BodilessByLine = FALSE
   ForgetCloseOnFault = FALSE
   StaleLengthOnRenderFault = TRUE
+  StatusStringAsIs = FALSE
   Tier = "tiny"
   Ifaces = {"wsgi", "asgi"}
   Codes = {200, 204}
@@ -22,5 +23,6 @@ INVARIANT LengthConsistent
 INVARIANT BodilessHaveNoBytes
 INVARIANT TypelessHaveNoFrameworkType
 INVARIANT OthersHaveType
+INVARIANT StatusLineWellFormed
 INVARIANT CloseExactlyOnceOnceBegun
 INVARIANT FaultFreeCompletes
